@@ -828,6 +828,43 @@ namespace bloch::compiler {
                 throw BlochError(ErrorCategory::Semantic, line, column,
                                  "initialiser for '" + name + "' cannot be null");
             }
+            // Elements of an array literal: the conversions the evaluator applies when it
+            // builds the array (docs/language/semantics.md, "Arrays").
+            auto elem = dynamic_cast<PrimitiveType*>(arr->elementType.get());
+            auto literal = dynamic_cast<ArrayLiteralExpression*>(initializer);
+            if (elem && literal) {
+                ValueType want = typeFromAst(elem).value;
+                auto accepts = [want](ValueType got) {
+                    if (got == want)
+                        return true;
+                    switch (want) {
+                        case ValueType::Int:
+                        case ValueType::Long:
+                            return got == ValueType::Int || got == ValueType::Long ||
+                                   got == ValueType::Bit || got == ValueType::Float;
+                        case ValueType::Float:
+                            return got == ValueType::Int || got == ValueType::Bit;
+                        case ValueType::Boolean:
+                            return got == ValueType::Bit;
+                        default:
+                            return false;
+                    }
+                };
+                for (auto& el : literal->elements) {
+                    if (!el)
+                        continue;
+                    TypeInfo got = inferTypeInfo(el.get());
+                    if (isUndeterminedType(got))
+                        continue;
+                    if (!got.className.empty() || !accepts(got.value)) {
+                        int elLine = el->line > 0 ? el->line : line;
+                        int elColumn = el->line > 0 ? el->column : column;
+                        throw BlochError(ErrorCategory::Semantic, elLine, elColumn,
+                                         "array initialiser for '" + name + "' expects '" +
+                                             elem->name + "' elements");
+                    }
+                }
+            }
         }
 
         if (auto call = dynamic_cast<CallExpression*>(initializer)) {
